@@ -14,9 +14,6 @@
 
 from typing import Any, List
 
-from sympy.logic import And, Or, false, true
-
-from . import _eq, _neq
 from .qint import QintImp
 from .qtype import Qtype, TExp, bin_to_bool_list, bool_list_to_bin
 
@@ -55,16 +52,10 @@ class Qchar(str, Qtype):
 
     @staticmethod
     def eq(tleft: TExp, tcomp: TExp) -> TExp:
-        ex = true
-        for x in zip(tleft[1], tcomp[1]):
-            ex = And(ex, _eq(x[0], x[1]))
-
-        return (bool, ex)
+        # as for Qint: a narrower operand (e.g. ord(c) == 10, 10 being a Qint4) is equal only if
+        # the extra high bits of the wider one are all zero
+        return QintImp.eq(tleft, tcomp)
 
     @staticmethod
     def neq(tleft: TExp, tcomp: TExp) -> TExp:
-        ex = false
-        for x in zip(tleft[1], tcomp[1]):
-            ex = Or(ex, _neq(x[0], x[1]))
-
-        return (bool, ex)
+        return QintImp.neq(tleft, tcomp)
